@@ -52,6 +52,13 @@ def run_case(ctx, mr, case):
     # model of setup_sd_key (incl. a rejected length)
     out = mr.ask('sdkey ' + hx(msed))
     e = CryptoEngine(dev=dev)
+    rekey = rng.random() < 0.4
+    if rekey:
+        # the engine served another console before (its ID0 was looked at): the keys and the ID0 are those of the LAST movable.sed
+        e.setup_sd_key(sd.movable_sed(rng, pyenv.rbytes(rng, 16), rng.choice([0x10, 0x120, 0x140])))
+        _ = e.id0
+        e = e.clone() if rng.random() < 0.5 else e
+        ctx.stat('rekeyed_engines')
     e.setup_sd_key(msed)
     impl = hx(bytes.fromhex('%032x' % e.key_y[0x34])) + ' ' + hx(e.id0)
     if out != impl:
@@ -107,7 +114,13 @@ def run_case(ctx, mr, case):
                     if got != data:
                         ctx.diff('oracle', 'sd-old-read', dict(case, path=spelling), data.hex()[:40], str(got)[:40], f'SDFilesystem.open({spelling!r}) does not decrypt to the content')
             return
-        root = SDRoot(base, sd_key=msed, dev=dev)
+        if rekey:
+            eng = CryptoEngine(dev=dev)
+            eng.setup_sd_key(sd.movable_sed(rng, pyenv.rbytes(rng, 16), 0x10))
+            _ = eng.id0
+            root = SDRoot(base, crypto=eng, sd_key=msed)
+        else:
+            root = SDRoot(base, sd_key=msed, dev=dev)
         ctx.stat('api_sdfs')
         ctx.stat('dev' if dev else 'retail')
         if root.id0 != id0:
@@ -139,13 +152,30 @@ def run_case(ctx, mr, case):
                        if not (o[0] == 's' and o[1] > len(files[rel]) + 40)]
                 # never begin a write beyond the end (C12 gap finding)
                 safe = []
-                pos_unknown = False
+                pos, length = 0, len(files[rel])
                 for o in ops:
-                    if o[0] == 's' and (o[2] != 0 or o[1] > len(files[rel])):
-                        continue
-                    if o[0] == 'r' and not (o[1] == -1 or 0 <= o[1] <= 100000):
-                        continue      # sizes the underlying OS / memory file itself rejects or cannot allocate
+                    if o[0] == 's':
+                        # any whence, as long as the new position lies inside the file (a write must not begin beyond the end)
+                        new = o[1] if o[2] == 0 else (pos + o[1] if o[2] == 1 else length + o[1])
+                        if not 0 <= new <= length:
+                            continue
+                        pos = new
+                    elif o[0] == 'r':
+                        if not (o[1] == -1 or 0 <= o[1] <= 100000):
+                            continue      # sizes the underlying OS / memory file itself rejects or cannot allocate
+                        pos += (length - pos) if o[1] < 0 else min(o[1], length - pos)
+                    elif o[0] == 'w':
+                        pos += len(o[1]) // 2
+                        length = max(length, pos)
                     safe.append(o)
+                    if o[0] == 's' and o[2] == 0 and rng.random() < 0.3:
+                        # the same place again, said relatively (by the position itself is the case where offset == tell())
+                        extra = rng.choice([['s', 0, 1], ['s', pos - length, 2]] + ([['s', pos, 1]] if 2 * pos <= length else []))
+                        safe.append(extra)
+                        if extra == ['s', pos, 1]:
+                            pos += pos
+                        safe.append(['r', rng.choice([1, 16, 17])])
+                        pos += min(safe[-1][1], length - pos)
                 c.run(safe)
                 if len(c.content) > 0 and rng.random() < 0.7:
                     # the history ends with a small write and nothing after it: what close() must get onto the disk
@@ -159,6 +189,65 @@ def run_case(ctx, mr, case):
                 want = sd.sd_crypt(nk, rel, files[rel])
                 if raw != want:
                     ctx.diff('oracle', 'sd-raw-after-write', dict(case, path=p), want.hex()[:40], raw.hex()[:40], f'console-format bytes of {rel!r} are not the encryption of the view')
+                # the other ways PyFilesystem offers of reading and writing a file through the same view
+                for api in ('open', 'readbytes', 'writebytes', 'appendbytes', 'upload', 'download'):
+                    ctx.stat('api_' + api)
+                    try:
+                        if api == 'open':
+                            with fsview.open(p, 'rb') as fh:
+                                got = fh.read()
+                        elif api == 'readbytes':
+                            got = fsview.readbytes(p)
+                        elif api == 'download':
+                            sink = io.BytesIO()
+                            fsview.download(p, sink)
+                            got = sink.getvalue()
+                        elif api == 'appendbytes':
+                            more = pyenv.rbytes(rng, rng.choice([1, 15, 16, 33]))
+                            fsview.appendbytes(p, more)
+                            files[rel] = files[rel] + more
+                            got = base.readbytes(f'{id0}/{id1}{rel}')
+                        elif api == 'upload':
+                            new = pyenv.rbytes(rng, rng.choice([0, 5, 32, 100]))
+                            fsview.upload(p, io.BytesIO(new))
+                            files[rel] = new
+                            got = base.readbytes(f'{id0}/{id1}{rel}')
+                        else:
+                            new = pyenv.rbytes(rng, rng.choice([0, 1, 16, 17, len(files[rel])]))
+                            fsview.writebytes(p, new)
+                            files[rel] = new
+                            got = base.readbytes(f'{id0}/{id1}{rel}')
+                    except Exception as ex:
+                        ctx.diff('oracle', f'sd-{api}-raises', dict(case, path=p, api=api), 'bytes', pyenv.errname(ex) + ': ' + str(ex)[:60],
+                                 f'{api}({p!r}) through the SD filesystem view raised {pyenv.errname(ex)}')
+                        continue
+                    exp = files[rel] if api in ('open', 'readbytes', 'download') else sd.sd_crypt(nk, rel, files[rel])
+                    if got != exp:
+                        ctx.diff('oracle', f'sd-{api}', dict(case, path=p, api=api), exp.hex()[:40], bytes(got).hex()[:40],
+                                 f'{api}({p!r}) through the SD filesystem view: ' + ('does not return the decrypted content' if api in ('open', 'readbytes', 'download')
+                                                                                     else 'does not store the encryption of the data'))
+        for rel in list(files)[:2]:
+            for api in ('copy', 'move'):
+                dst = '/' + api + '_' + ''.join(rng.choice('abcXYZ09') for _ in range(5)) + '.bin'
+                if dst.lower() in {k.lower() for k in files}:
+                    continue
+                ctx.stat('api_' + api)
+                try:
+                    getattr(top, api)(rel, dst)
+                    raw = base.readbytes(f'{id0}/{id1}{dst}')
+                    back = top.readbytes(dst)
+                except Exception as ex:
+                    ctx.diff('oracle', f'sd-{api}-raises', dict(case, path=rel, dst=dst), 'a copy', pyenv.errname(ex) + ': ' + str(ex)[:60], f'{api}({rel!r}, {dst!r}) raised')
+                    continue
+                if raw != sd.sd_crypt(nk, dst, files[rel]) or back != files[rel]:
+                    ctx.diff('oracle', f'sd-{api}', dict(case, path=rel, dst=dst), sd.sd_crypt(nk, dst, files[rel]).hex()[:40], raw.hex()[:40],
+                             f'{api}({rel!r}, {dst!r}): the new file is not the encryption of the content under ITS path counter')
+                files[dst] = files[rel]
+                if api == 'move':
+                    if base.exists(f'{id0}/{id1}{rel}'):
+                        ctx.diff('oracle', 'sd-move-left-source', dict(case, path=rel), 'removed', 'still there', 'move left the source file behind')
+                    del files[rel]
+                    rel = dst
         # the counter function itself: case / separator insensitivity, independent derivation
         for rel in list(files)[:2]:
             for v in (rel, rel.upper(), rel.lower(), rel.replace('/', '\\'), rel.swapcase()):
